@@ -48,9 +48,16 @@ def share_encoder_parameters(
     :param others: The other networks whose encoder parameters will be pinned to the policy.
     :type others: EvolvableNetwork
     """
-    assert isinstance(policy, EvolvableNetwork), "Policy must be an EvolvableNetwork"
+    # NOTE: runtime Protocol checks use static attribute lookup from Python 3.12 on,
+    # which does not see registered submodules, so we check the structure directly
+    def _is_network(net: Any) -> bool:
+        return isinstance(net, Module) and isinstance(
+            getattr(net, "encoder", None), Module
+        )
+
+    assert _is_network(policy), "Policy must be an EvolvableNetwork"
     assert all(
-        isinstance(other, EvolvableNetwork) for other in others
+        _is_network(other) for other in others
     ), "All others must be EvolvableNetwork"
 
     # detaching encoder parameters from computation graph reduces
